@@ -209,6 +209,8 @@ def main(argv=None):
                 from . import kani as K
                 r = K.run_unit(us, pid, tier, REPO, BUILD, ROOT)
                 per += r['per_obligation']
+                for f in r['failed']:
+                    f['bdir'] = r.get('bdir')
                 failed += r['failed']
                 trusted += r['trusted']
                 functions += r['functions']
@@ -221,6 +223,13 @@ def main(argv=None):
                 raise Undecided('unknown backend %s' % us['backend'])
     except Undecided as e:
         print('UNDECIDED property=%s: %s' % (pid, e))
+        return 2
+    except Exception as e:
+        if type(e).__name__ == 'KaniUndecided':
+            print('UNDECIDED property=%s: %s' % (pid, e))
+            return 2
+        traceback.print_exc()
+        print('UNDECIDED property=%s: internal error in the checking machinery' % pid)
         return 2
     except Exception:
         traceback.print_exc()
@@ -237,8 +246,13 @@ def main(argv=None):
                 print('KNOWN-FINDING: property=%s %s %s' % (pid, f['id'], k.get('what', '')))
         else:
             violations.append(f)
+    # obligations listed as known findings are reported, not counted as obligations of the claim
+    known_ids = set(f['id'] for f in known_hit)
+    for o in per:
+        if o['id'] in known_ids:
+            o['result'] = 'known-finding'
     discharged = sum(1 for o in per if o['result'] == 'discharged')
-    nobl = len(per)
+    nobl = sum(1 for o in per if o['result'] != 'known-finding')
     wall = time.time() - t0
     level = ent['level']
     cov = dict(obligations=nobl, discharged=discharged,
@@ -269,9 +283,17 @@ def main(argv=None):
             seen.add(f['id'])
             extra = None
             suffix = ' no-failing-input-found'
+            if f.get('backend') == 'kani' and not os.environ.get('VERIF_NO_REPLAY'):
+                try:
+                    from . import kani as K
+                    K.witness(f, BUILD)
+                except Exception as e:
+                    f['replay'] = dict(ran=False, reason='witness extraction failed: %s' % e)
             if f.get('counterexample'):
-                extra = dict(counterexample=f['counterexample'], replay=f.get('replay'))
-                suffix = ''
+                extra = dict(counterexample=f['counterexample'], replay=f.get('replay'), playback_test=f.get('playback_test'))
+                if (f.get('replay') or {}).get('confirmed'):
+                    suffix = ''
+                    print('REPLAYED %s on the real code: concrete values %s reproduce the failure' % (f['id'], json.dumps(f['counterexample'])[:300]))
             path = write_replay(pid, f, f.get('backend', 'verus'), extra)
             print('FAILED-OBLIGATION %s: %s (%s)' % (f['id'], f['message'], (f.get('detail') or '')[:200]))
             print('VIOLATION property=%s replay=%s%s' % (pid, path, suffix))
